@@ -31,8 +31,10 @@ def overlay_form(ol, cur_text, unchanged):
         mo = extract._ARM.match(cur_text)
         if mo:
             ind = mo.group(1)
+            after = list(ol.after or [])
+            body = mo.group(3) + (';' if after and not mo.group(3).endswith(';') else '')
             return (['%s%s => { //@arm' % (ind, mo.group(2))] + list(ol.extra) +
-                    ['%s    %s //@arm-body' % (ind, mo.group(3)), '%s}%s //@arm-close' % (ind, mo.group(4))])
+                    ['%s    %s //@arm-body' % (ind, body)] + after + ['%s}%s //@arm-close' % (ind, mo.group(4))])
         return [cur_text, '//@@ REVIEW arm lost']
     raise AssertionError(k)
 
